@@ -124,6 +124,8 @@ func (x *Exec) stmt(st *State, s ast.Stmt, label string) Flow {
 		return x.rangeStmt(st, s, label)
 	case *ast.SwitchStmt:
 		return x.switchStmt(st, s, label)
+	case *ast.SelectStmt:
+		return x.selectStmt(st, s, label)
 	case *ast.BranchStmt:
 		f := Flow{}
 		switch s.Tok {
@@ -161,9 +163,10 @@ func (x *Exec) stmt(st *State, s ast.Stmt, label string) Flow {
 	case *ast.GoStmt:
 		x.unsup(s.Pos(), "go statement")
 	case *ast.SendStmt:
-		x.unsup(s.Pos(), "channel send")
-	case *ast.SelectStmt:
-		x.unsup(s.Pos(), "select")
+		// channels are not modelled: a send has no effect visible here
+		x.expr(st, s.Chan)
+		x.expr(st, s.Value)
+		return Flow{next: st}
 	case *ast.TypeSwitchStmt:
 		x.unsup(s.Pos(), "type switch")
 	}
@@ -515,6 +518,70 @@ func (x *Exec) switchStmt(st *State, s *ast.SwitchStmt, label string) Flow {
 		}
 	}
 	// unlabelled breaks inside the switch leave the switch
+	nexts = append(nexts, out.breaks...)
+	out.breaks = nil
+	if label != "" {
+		nexts = append(nexts, out.lbreaks[label]...)
+		delete(out.lbreaks, label)
+	}
+	out.next = x.vc.mergeStates(nexts)
+	return out
+}
+
+// selectStmt: `select` whose cases only receive (plus an optional default).
+// Channels are not modelled: which clause runs is a nondeterministic choice and
+// a received value is arbitrary (over-approximation).
+func (x *Exec) selectStmt(st *State, s *ast.SelectStmt, label string) Flow {
+	var out Flow
+	var nexts []*State
+	for _, cs := range s.Body.List {
+		cc := cs.(*ast.CommClause)
+		sC := st.clone()
+		sC.assume(x.vc.fresh("sel", "Bool"))
+		switch c := cc.Comm.(type) {
+		case nil:
+			// default
+		case *ast.ExprStmt:
+			u, ok := ast.Unparen(c.X).(*ast.UnaryExpr)
+			if !ok || u.Op != token.ARROW {
+				x.unsup(c.Pos(), "select case other than a receive")
+			}
+			x.expr(sC, u.X)
+		case *ast.AssignStmt:
+			if len(c.Rhs) != 1 || len(c.Lhs) > 2 {
+				x.unsup(c.Pos(), "select case other than a receive")
+			}
+			u, ok := ast.Unparen(c.Rhs[0]).(*ast.UnaryExpr)
+			if !ok || u.Op != token.ARROW {
+				x.unsup(c.Pos(), "select case other than a receive")
+			}
+			x.expr(sC, u.X)
+			ch, ok := x.typeOf(u.X).Underlying().(*types.Chan)
+			if !ok {
+				x.unsup(c.Pos(), "receive from a non-channel")
+			}
+			ev := Value{T: x.vc.fresh("recv", x.vc.sortOf(ch.Elem())), Ty: ch.Elem()}
+			x.vc.assumeFacts(sC, ev.T, ev.Ty)
+			if c.Tok == token.DEFINE {
+				x.defineLoopVar(sC, c.Lhs[0], ev)
+			} else {
+				x.assignTo(sC, c.Lhs[0], ev)
+			}
+			if len(c.Lhs) == 2 {
+				okv := Value{T: x.vc.fresh("recvok", "Bool"), Ty: types.Typ[types.Bool]}
+				if c.Tok == token.DEFINE {
+					x.defineLoopVar(sC, c.Lhs[1], okv)
+				} else {
+					x.assignTo(sC, c.Lhs[1], okv)
+				}
+			}
+		default:
+			x.unsup(cc.Pos(), "select case other than a receive")
+		}
+		f := x.block(sC, cc.Body)
+		out.absorb(f)
+		nexts = append(nexts, f.next)
+	}
 	nexts = append(nexts, out.breaks...)
 	out.breaks = nil
 	if label != "" {
